@@ -845,7 +845,8 @@ pub fn oracle_c15(w: &World, obs: &RunObs) -> Result<(), (String, String)> {
 // scenario
 // ---------------------------------------------------------------------------------------------
 
-const FAULTS: [FaultKind; 14] = [
+const FAULTS: [FaultKind; 15] = [
+    FaultKind::WarningAndError,
     FaultKind::LoadPartial,
     FaultKind::EmptyBody,
     FaultKind::RpcError,
@@ -1259,6 +1260,6 @@ agent_spec!(C02, "C02", run_c02, "exploration", 20_000, 1_000_000, PLAN_CASES_PE
 agent_spec!(C03, "C03", run_c03, "fault_enumeration", 20_000, 1_000_000, 0,
     "histories biased towards managed policies whose data is unobtainable: unknown as-set, error response (F / E / D) to the as-set members query, IRRd refusing the connection, annotations with the bgpfu-fltr prefix that do not parse, expressions using constructs the evaluator does not support (PeerAS, AS-path regular expressions, attribute matches); installed state present or absent, mutations make annotations unparseable between runs. Oracle: no update or delete names such a policy and its installed state is unchanged; deletes name only policies that are not marked as managed");
 agent_spec!(C04, "C04", run_c04, "fault_enumeration", 20_000, 1_000_000, 0,
-    "1-2 runs per history with 1-2 faults at seeded positions of the request sequence open -> get-config x2 -> load x N -> commit -> close-configuration -> close-session; fault kinds: rpc-error, error inside load-configuration-results, error followed by <ok/>, the positive indication followed by an error, a reply without any content (no acknowledgement), a load that is refused but partially merged by the router, malformed reply, truncated reply, unknown message-id, another outstanding request's message-id, duplicated reply, close before the reply, close after the reply, and (non-fault) warning followed by <ok/>; reply delays let a failing load reply arrive after later loads were sent. Oracle on the per-session request log: commit only after open and every load were positively acknowledged and delivered, never after a failed step; fault => run fails; success => commit, close-configuration and close-session acknowledged");
+    "1-2 runs per history with 1-2 faults at seeded positions of the request sequence open -> get-config x2 -> load x N -> commit -> close-configuration -> close-session; fault kinds: rpc-error, a warning next to an error (either order), error inside load-configuration-results, error followed by <ok/>, the positive indication followed by an error, a reply without any content (no acknowledgement), a load that is refused but partially merged by the router, malformed reply, truncated reply, unknown message-id, another outstanding request's message-id, duplicated reply, close before the reply, close after the reply, and (non-fault) warning followed by <ok/>; reply delays let a failing load reply arrive after later loads were sent. Oracle on the per-session request log: commit only after open and every load were positively acknowledged and delivered, never after a failed step; fault => run fails; success => commit, close-configuration and close-session acknowledged. FakeJunos applies requests made without an open database to the shared candidate configuration (as Junos does), so that a run which ignores a refused open-configuration is seen loading and committing");
 agent_spec!(C15, "C15", run_c15, "exploration", 20_000, 1_000_000, 0,
-    "1-5 (thorough: 1-10) managed policies of which some are unevaluable (one world in eight additionally has a policy over a 70-100 member as-set on an IRR mirror that answers every route6 query with an error, i.e. dozens of sunk errors within one evaluation): unknown as-set, IRR error response, PeerAS, AS-path regular expression, community match; all hash orders; one run in 60 is made end to end by the agent executable (its own main(), i.e. with whatever process-wide hooks it installs). Oracle: the run succeeds, every evaluable policy reaches its reference set and is committed, the unevaluable ones are untouched. The violation class names the kind of unevaluable member present", COMPONENTS_C01);
+    "1-5 (thorough: 1-10) managed policies of which some are unevaluable (one world in eight additionally has a policy over a 70-100 member as-set on an IRR mirror that answers every route6 query with an error, i.e. dozens of sunk errors within one evaluation): unknown as-set, IRR error response, PeerAS, AS-path regular expression, community match; all hash orders; one run in 60 is made end to end by the agent executable (its own main(), i.e. with whatever process-wide hooks it installs). Oracle: the run succeeds, every evaluable policy reaches its reference set and is committed, the unevaluable ones are untouched, and a policy that is installed but no longer marked as managed does not survive. The violation class names the kind of unevaluable member present", COMPONENTS_C01);
